@@ -33,7 +33,23 @@ func fit(addr uint64, w int) int {
 func run(c *mon.Case) {
 	r := c.Rng
 	base := bases[r.Intn(len(bases))]
-	const win = 48
+	win := 48
+	big := r.Intn(6) == 0
+	if big {
+		// a wide window: reads of up to 255 bytes composed of many stored values, pieces
+		// beginning 32 and more bytes into the read
+		win = 280
+		if base > 1<<63 {
+			base = 1<<64 - 400
+		}
+		c.Count("wide_window_histories", 1)
+	}
+	lw := func(n int) int { // width of a read
+		if big && r.Intn(2) == 0 {
+			return 33 + r.Intn(223)
+		}
+		return 1 + r.Intn(n)
+	}
 	var hist []string
 
 	// initial layout: 0..6 blocks, sometimes adjacent, sometimes overlapping, unsorted
@@ -138,7 +154,7 @@ func run(c *mon.Case) {
 			}
 		case x < 85:
 			addr := base + uint64(r.Intn(win))
-			if !k.Load(addr, fit(addr, 1+r.Intn(20))) {
+			if !k.Load(addr, fit(addr, lw(20))) {
 				return
 			}
 		default:
@@ -150,7 +166,7 @@ func run(c *mon.Case) {
 		}
 		for i := 0; i < probes; i++ {
 			addr := base + uint64(r.Intn(win))
-			if !k.Load(addr, 1+r.Intn(12)) {
+			if !k.Load(addr, fit(addr, lw(12))) {
 				return
 			}
 		}
@@ -201,7 +217,7 @@ func main() {
 			}
 			return 2000
 		},
-		RequiredCounts: []string{"loads_nontrivial", "loads_missing", "stores", "overlapping_layouts"},
+		RequiredCounts: []string{"wide_window_histories", "loads_nontrivial", "loads_missing", "stores", "overlapping_layouts"},
 		Run:            run,
 	})
 }
